@@ -83,13 +83,13 @@ def judge_chunks(ctx, files):
     def one(it):
         (g, ck), p = it
         r = vlib.tlc("CodecJudge", "CodecJudge.cfg", workers=1, env={"TRACE": p}, timeout=1500,
-                     tag="CodecJudge_%s_%d" % (g, ck), xmx="3g")
+                     tag="CodecJudge_%s_%d" % (g, ck), xmx="1500m")
         v = vlib._verdict_lines(r.out)
         if "VERDICT" not in v:
             raise vlib.Infra("CodecJudge gave no verdict on %s (rc=%d):\n%s" % (p, r.rc, "\n".join(r.out.splitlines()[-40:])))
         vd = v["VERDICT"][-1]
         return p, vd["bad"], vd["n"], vd["nbad"], r.generated
-    return vlib.parallel(one, items)
+    return vlib.parallel(one, items, workers=min(vlib.NCPU, 12))
 
 
 def classes_of(ctx, rec):
@@ -165,6 +165,8 @@ def judge_file(ctx, path, what, rc, out, count=True):
         san = re.search(r"(ERROR: \w+Sanitizer: [^\n]*|runtime error: [^\n]*)", out)
         ctx.reject("C15:%s:%s" % (op, kind), "%s inside a driven call (%s): %s; partial record: %s" % (
             kind, what, san.group(1) if san else out[-300:], (tail or "")[:300]), {"records": [], "partial_line": tail})
+        # the crash handler of the harness appends a {"e":"crash"} line: not a call record
+        lines = [l for l in lines if not l.startswith('{"e":"crash"')]
         with open(path, "w") as f:
             f.write("\n".join(lines) + ("\n" if lines else ""))
     if not lines:
@@ -203,11 +205,11 @@ def judge_file(ctx, path, what, rc, out, count=True):
 
 def model_checks(ctx, thorough):
     cfgs = ["MC_Codec_bytes.cfg", "MC_Codec_utf8_all.cfg" if thorough else "MC_Codec_utf8.cfg", "MC_Codec_dec.cfg"]
-    vlib.parallel(lambda c: vlib.tlc_mc(ctx, "MCCodec", c, workers=4, timeout=3000, tag="MCCodec_" + c), cfgs)
+    vlib.parallel(lambda c: vlib.tlc_mc(ctx, "MCCodec", c, workers=4, timeout=3000, tag="MCCodec_" + c, xmx="2g"), cfgs)
 
     def guard(g):
         cfg, inv = g
-        r = vlib.tlc("MCCodec", cfg, workers=2, timeout=1500, tag="MCCodec_" + cfg)
+        r = vlib.tlc("MCCodec", cfg, workers=2, timeout=1500, tag="MCCodec_" + cfg, xmx="1500m")
         if inv not in r.invariant_violated:
             raise vlib.Infra("vacuity guard: %s did not violate %s" % (cfg, inv))
         return {"cfg": cfg, "violates": inv}
